@@ -35,3 +35,36 @@ CLAIMS["C06"] = {
     "note": "Out: mounting the formatted image through FileSystem::new + stats() as one run (composition); the mount side "
             "is C07's harnesses on the same BPB struct. FAT32 region writes are checked by offset/length log only.",
 }
+
+CLAIMS["C05"] = {
+    "text": "Bounded model checking, inductive decomposition: on a fully symbolic FAT window alloc/free/truncate change the "
+            "number of zero entries by exactly -1/+len/+tail and count_free equals that number; at FileSystem level the cached "
+            "counter follows the table exactly and stays exact through every allocating/freeing unit, the hint stays in range, "
+            "the FS-info sector written at unmount carries both; NotEnoughSpace only when no zero entry exists.",
+    "note": "Induction (cached count = table zero-count is preserved by each unit) is a written argument; only the steps are "
+            "machine-checked. FileSystem-level steps use concrete table variants (symbolic table only at table level). "
+            "Out: leaks caused by callers dropping a chain head on an error path; fixed-root slot exhaustion.",
+}
+CLAIMS["C10"] = {
+    "text": "Bounded model checking: replicated writes of DiskSlice (symbolic geometry, 1-3 copies), table selection from "
+            "the BPB flags, identical copies after FileSystem-level alloc/free/truncate with mirroring and untouched inactive "
+            "copy without, reserved entries and padding never allocated, FAT32 reserved bits preserved on every update, "
+            "format_fat layout.",
+    "note": "'copies identical' is an inductive invariant: each table write is shown to reach all copies identically; the "
+            "history quantifier is covered by that argument, not by exploring histories.",
+}
+CLAIMS["C12"] = {
+    "text": "Bounded model checking of the dirty-bit funnel: set_dirty_flag (every mount byte/state), the FS adapter write "
+            "path, File::write ordering (status byte before payload), unmount restoring the mount-time byte, and reporting "
+            "from boot sector and FAT entry 1.",
+    "note": "The bracket over whole histories follows from the one-step facts plus the syntactic funnel argument in "
+            "DESIGN.md (every FAT/directory write goes through FsIoAdapter or File::write); abandonment/remount is not run.",
+}
+CLAIMS["C20"] = {
+    "text": "Bounded model checking of 64-bit addressing over ALL accepted geometries: cluster/sector/byte offsets equal a "
+            "u64 reference and stay inside the volume (covers >4 GiB, >1 TiB, last cluster), FAT entry offsets for every "
+            "cluster number up to each width's maximum, allocation scan start and wrap-around with hints at/just before/"
+            "past the end.",
+    "note": "Scans over millions of entries are input-proportional loops and are not unwound: wrap logic is decided on the "
+            "small window, offsets on the full 32-bit range; multi-TiB devices are not driven through the API.",
+}
